@@ -11,6 +11,10 @@ TRUST = ("trusted base: rustc's MIR dump of the current tree, the mirsym interpr
 
 # id -> (level text, note, design ref)
 CLAIMED = {
+    "C13": ("All expression trees of depth <= D (quick 2, thorough 3) with enumerated node kinds and solver-chosen operators, functions, names, 64-bit indices and double literals, and "
+            "every partial assignment (variables bound or not, regions absent / empty / non-empty, arbitrary doubles): the real evaluate, substitute_variables and memory_references: "
+            "evaluate(substitute(e, s)) and evaluate(e, s) give the same verdict and bit-identical values; evaluation succeeds iff everything is supplied; the reported memory "
+            "references are the addresses of the tree.", TRUST + "; calculate_infix / calculate_function are uninterpreted functions (stub)", "5/C13"),
     "C16": ("All calibration sets of <= K definitions (quick 2, thorough 3) from 10 gate- and 5 measure-calibration shapes (fixed/variable qubits, literal/variable parameters, "
             "DAGGER, named measurements) with solver-chosen names, qubits and bodies, optionally followed by a redefinition of the first signature, queried by 7 gate / 4 "
             "measurement shapes: the real add_instruction / get_match_for_gate / get_match_for_measurement against a reference precedence function and replace-in-place "
